@@ -5,7 +5,7 @@ From FV Require Model.Collections gen.Collections.
 Definition dispatch (cmd : string) (arg : sexp) : sexp :=
   if String.eqb cmd "c15.gen" then ScriptBlocks.run_gen arg
   else if String.eqb cmd "c12.audit" then MathFuncs.audit math_env documented
-  else if String.eqb cmd "c06.query" then Collections.run_query_wire gen.Collections.coll_env arg
-  else if String.eqb cmd "c06.subst" then Collections.run_subst_wire arg
-  else if String.eqb cmd "c06.tables" then Collections.run_tables_wire gen.Collections.coll_env
+  else if String.eqb cmd "c06.query" then Model.Collections.run_query_wire gen.Collections.coll_env arg
+  else if String.eqb cmd "c06.subst" then Model.Collections.run_subst_wire arg
+  else if String.eqb cmd "c06.tables" then Model.Collections.run_tables_wire gen.Collections.coll_env
   else s_tag "unknown-command" [SAtom cmd].
